@@ -688,7 +688,11 @@ class ExprMixin:
         args = []
         for a in node.args:
             if isinstance(a, ast.Starred):
-                args.extend(self.need_items(self.eval(a.value, fr)))
+                sv_ = self.eval(a.value, fr)
+                if self.concrete_items(sv_) is None:
+                    args.append(SymStar(self.seq_value(sv_)))
+                else:
+                    args.extend(self.need_items(sv_))
             else:
                 args.append(self.eval(a, fr))
         kwargs = {}
@@ -702,6 +706,22 @@ class ExprMixin:
             else:
                 kwargs[kw.arg] = self.eval(kw.value, fr)
         self.cur_node = node
+        if self.env.site_hooks:
+            cname = node.func.attr if isinstance(node.func, ast.Attribute) else \
+                node.func.id if isinstance(node.func, ast.Name) else None
+            hook = self.env.site_hooks.get((fr.qualname, cname))
+            if hook is not None:
+                ns = {}
+                f2 = fr
+                while f2 is not None:
+                    for k_, v_ in f2.locals.items():
+                        ns.setdefault(k_, v_)
+                    f2 = f2.parent
+                ns['call_args'] = tuple(args)
+                ns['call_kwargs'] = dict(kwargs)
+                t = self.truth(self.call_spec(hook, ns, fr))
+                self.oblige('site/%s->%s@%d' % (fr.qualname, cname, node.lineno), 'site', t,
+                            'call site line %d' % node.lineno)
         return self.call(f, args, kwargs)
 
     def lookup_name(self, fr, name):
@@ -729,7 +749,7 @@ class ExprMixin:
             return list(v.keys())
         if isinstance(v, str):
             return list(v)
-        if isinstance(v, (SSeqV, MSet, SSetV, SMapV, SymRange)):
+        if isinstance(v, (SSeqV, MSet, SSetV, SMapV, SymRange, SymEnumerate)):
             return None
         if isinstance(v, (dict.keys.__class__,)):
             return list(v)
